@@ -215,6 +215,7 @@ def check_rendering(ctx, case, text, style_label):
     try:
         gp = parse_real(text, graph.families)
     except _real['GraphParseError'] as exc:
+        case.last = {'route': 'rejected', 'error': str(exc)}
         ctx.violation(
             case.key('valid-graph-rejected'),
             f'valid graph rejected in presentation [{style_label}]: '
@@ -691,8 +692,26 @@ def run_malformed(ctx, graph, rng):
             k = rng.randint(0, len(others))
             text_lines = others[:k] + [mutant] + others[k:]
         text = '\n'.join('    ' + t for t in text_lines)
+        is_last = text_lines[-1] == mutant
+        if kind == 'missing-operator':
+            # which kind of token ends just before the gap
+            toks = mutant.split(' ')
+            prev = ''
+            for a, b in zip(toks, toks[1:]):
+                if a not in ('=>', '&', '|', '(', ')') and b not in (
+                        '=>', '&', '|', '(', ')'):
+                    prev = a
+                    break
+            kind += (':after-optional-mark' if prev.endswith('?') else
+                     ':after-offset' if prev.endswith(']') else
+                     ':after-name-or-qualifier')
         ctx.count('malformed_judged')
         ctx.count('malformed:' + kind)
+        if kind.startswith(('missing-operator', 'bad-node')):
+            # node-level syntax errors: one mechanism when the line is not
+            # the last one of the graph string (witness: position)
+            kind = (kind + ':last-line' if is_last
+                    else 'node-syntax-error-not-on-last-line')
         try:
             gp = parse_real(text, graph.families)
         except _real['GraphParseError']:
